@@ -51,6 +51,7 @@ def run(rep):
     subrect(rep, fns)
     partial_rows(rep, wd)
     tiff_subimage(rep, fns)
+    bmp_mask_decode(rep, fns)
 
 
 def must_call(rep, fns):
@@ -428,3 +429,61 @@ def tiff_subimage(rep, fns):
             rep.violation("S8b-tile-overlap", key, R.fn_where(f), {"skip_condition": sorted(map(str, got)), "disjointness_of_inclusive_rectangles": sorted(map(str, want)),
                                                                    "problem": "a tile that shares exactly one row/column with the requested rectangle is skipped (or a disjoint one processed): the sub-rectangle read differs from the crop of the full read"})
     rep.floor("obligations:S8b", 1)
+
+
+def bmp_mask_decode(rep, fns):
+    rep.rule("S9 bmp 15/16-bit decoding: each of the three channel expressions ((p & M.c.mask) >> M.c.shift) << (8 - M.c.width) uses the mask, shift and width of one and "
+             "the same channel, the three use three different channels, each is stored into the like-named colour, and reader and scanline reader use identical expressions")
+    per = {}
+    for f in fns:
+        if fmt_of(f) != "bmp" or not re.search(r"(reader::read_data_15|scanline_reader::read_15_bits_row)$", f["name"]):
+            continue
+        cls = "scanline_reader" if "scanline_reader" in f["name"] else "reader"
+        if cls in per:
+            continue
+        exprs = {}
+        for d, _ in R.find(f["body"], lambda x: x.get("k") == "Decl"):
+            for dd in d["decls"]:
+                if dd.get("init") is not None and "_mask." in R.key(dd["init"]):
+                    exprs[dd["name"]] = R.key(dd["init"]).replace("this.", "")
+        stores = {}
+        for c, _ in R.find(f["body"], lambda x: x.get("k") in ("Assign", "Call") and (x.get("op") == "=") and "get_color(" in R.key(x)):
+            k = R.key(c)
+            m = re.search(r"get_color\(.*?,(\w+)_t\{\}\)\s*=\s*\(?(\w+)", k.replace("byte_t{", "").replace("}", ""))
+            if m:
+                stores[m.group(2)] = m.group(1)
+        per[cls] = (exprs, stores, R.fn_where(f))
+    for cls, (exprs, stores, where) in sorted(per.items()):
+        rep.count("obligations:S9")
+        prob = []
+        used = {}
+        for v, e in sorted(exprs.items()):
+            chans = set(re.findall(r"_mask\.(red|green|blue)\.", e))
+            fields = re.findall(r"_mask\.(?:red|green|blue)\.(mask|shift|width)", e)
+            if len(chans) != 1:
+                prob.append("%s mixes the masks of %s: %s" % (v, sorted(chans), e))
+            elif sorted(fields) != ["mask", "shift", "width"]:
+                prob.append("%s does not use mask, shift and width once each: %s" % (v, e))
+            else:
+                used[v] = list(chans)[0]
+        if len(set(used.values())) != 3 and not prob:
+            prob.append("the three expressions use the channels %s" % sorted(used.values()))
+        for v, ch in used.items():
+            if stores.get(v) not in (None, ch):
+                prob.append("%s (decoded with the %s mask) is stored into the %s channel" % (v, ch, stores.get(v)))
+        if len(exprs) != 3:
+            rep.fail_analysis("S9 %s: expected three mask expressions, found %s" % (cls, sorted(exprs)))
+        elif prob:
+            rep.violation("S9-mask-decode", "S9:bmp:%s" % cls, where, {"problems": prob})
+        else:
+            rep.ok("S9-mask-decode", "S9:bmp:%s" % cls, used)
+    rep.count("obligations:S9")
+    if set(per) == {"reader", "scanline_reader"}:
+        a, b = per["reader"][0], per["scanline_reader"][0]
+        if sorted(a.values()) == sorted(b.values()):
+            rep.ok("S9-mask-decode", "S9:bmp:reader == scanline reader", sorted(a.values())[0])
+        else:
+            rep.violation("S9-mask-decode", "S9:bmp:reader vs scanline reader", per["scanline_reader"][2], {"reader": a, "scanline_reader": b})
+    else:
+        rep.fail_analysis("S9: bmp read_data_15 / read_15_bits_row not both instantiated (%s)" % sorted(per))
+    rep.floor("obligations:S9", 3)
